@@ -230,9 +230,17 @@ def check(run, model, tier):
                 # the start-state reflection is evaluated before the step, the end-state one after
                 ssn = [m for m in g.nodes if m.kind not in ('entry', 'exit', 'xexit', 'def') and ss is not None and any(x is ss for x in m.walk())]
                 ok = is_reflect(ss) and bool(ssn) and all(not g.exists_path(fc, ssn[0]) for fc in fncalls if g.dominates(fc, n)) and any(g.dominates(ssn[0], fc) for fc in fncalls)
-                run.inst('TRACE.transition-only', inner, 'start state reflected before the step', ok, 'start_state is %s' % (norm(ss) if ss is not None else None), node=c, obligation=True)
+                run.inst('TRACE.transition-only', inner, 'start state reflected before the step', ok,
+                         'start_state is %s%s' % (norm(ss) if ss is not None else None, ': the search cursor is the resting state only after a step that ran to completion - after a step that '
+                                                  'left dispatch with an exception (a handler raised) it still points where the outward search stopped, and the next record starts from that '
+                                                  'ancestor instead of the state the chart is in' if ss is not None and dotted(getattr(ss, 'func', ss)) == recv + '.temp.fun' else ''),
+                         node=c, obligation=True)
                 esn = [m for m in g.nodes if m.kind not in ('entry', 'exit', 'xexit', 'def') and es is not None and any(x is es for x in m.walk())]
-                ok = is_reflect(es) and bool(esn) and any(g.dominates(fc, esn[0]) for fc in fncalls)
+                # after the wrapped step returned normally the cursor equals the state (I1), so either may be asked; before the step only state.fun is the
+                # resting state - the cursor is stale when the previous step left dispatch with an exception
+                def is_reflect_end(e):
+                    return isinstance(e, ast.Call) and dotted(e.func) in (recv + '.state.fun', recv + '.temp.fun') and any(signal_const(x) == 'REFLECTION_SIGNAL' for x in ast.walk(e))
+                ok = is_reflect_end(es) and bool(esn) and any(g.dominates(fc, esn[0]) for fc in fncalls)
                 run.inst('TRACE.transition-only', inner, 'end state reflected after the step', ok, 'end_state is %s' % (norm(es) if es is not None else None), node=c, obligation=True)
                 # signal / datetime come from the helper's scan of this step's tuples
                 sig = kw.get('signal')
